@@ -184,6 +184,14 @@ add("C21", "fixed", "analysis-raises-IndexError@analyze_tags.py", "analyze_tags_
 add("C10", "fixed", "raw:closing-hyphen-ignored", "{% raw %}...{% endraw -%} ignored the closing hyphen and {% raw -%} stripped the text after endraw", [], "46ff944")
 add("C10", "fixed", "text:trailing-newline-split", "template text ending in a newline was split into two tokens, which broke whitespace control on the following tag", [], "eb32805")
 
+# ----------------------------------------------------------------------------- C18 open
+add("C18", "open", "reject-miss:duplicate-block:direct-render",
+    "duplicate block names are only looked for while the block stacks of an extends chain are built; a template that is rendered directly (chain of length 1) may define a block name twice, side by side or nested in itself, "
+    "and is not rejected: '{% block a %}{% block a %}{% endblock a %}{% endblock a %}' renders to ''",
+    [{"kind": "pinned", "templates": {"t0": {"extends": None, "items": [["block", "a", False, [["block", "a", False, [], "a"]], "a"]]}}, "leaf": "t0", "data": {}, "async": False},
+     {"kind": "pinned", "templates": {"t0": {"extends": None, "items": [["block", "b", False, [["text", "<1>"]], None], ["block", "b", False, [["text", "<2>"]], None]]}}, "leaf": "t0", "data": {}, "async": True},
+     {"kind": "pinned", "templates": {"t0": {"extends": None, "items": [["for", 0, [["block", "a", True, [], None]]], ["block", "a", False, [], None]]}}, "leaf": "t0", "data": {}, "async": False}])
+
 if __name__ == "__main__":
     # further entries are appended by tools/mkfindings.py from triaged replay files and kept in findings_extra.json
     extra_path = os.path.join(VERIF, "tools", "findings_extra.json")
